@@ -752,11 +752,28 @@ func (h *history) judge(model, after []cfapi.Zone, targets []publish.Target, res
 		return after // cannot align results with targets; resynchronise the model
 	}
 
-	pi := 0 // next PATCH of the log not yet attributed to a target
+	// A PATCH is attributed to the first target (in request order) of ITS record that has not been given one yet:
+	// writes to different records may reach the API in any order (a publisher may send them concurrently); only the
+	// order of the writes to one record is taken to follow the order of the targets that name it.
+	used := make([]bool, len(patches))
 	nextPatchFor := func(rec *cfapi.Record, z *cfapi.Zone) *cfapi.Entry {
-		if pi < len(patches) && patches[pi].RecordID == rec.ID && patches[pi].ZoneID == z.ID {
-			pi++
-			return &patches[pi-1]
+		for i := range patches {
+			if !used[i] && patches[i].RecordID == rec.ID && patches[i].ZoneID == z.ID {
+				used[i] = true
+				return &patches[i]
+			}
+		}
+		return nil
+	}
+	nextFailedPatchFor := func(rec *cfapi.Record, z *cfapi.Zone) *cfapi.Entry {
+		for i := range patches {
+			if !used[i] && patches[i].RecordID == rec.ID && patches[i].ZoneID == z.ID {
+				if patches[i].Fault == "" {
+					return nil
+				}
+				used[i] = true
+				return &patches[i]
+			}
 		}
 		return nil
 	}
@@ -906,8 +923,7 @@ func (h *history) judge(model, after []cfapi.Zone, targets []publish.Target, res
 
 		switch res.Code {
 		case publish.StatusNotFound:
-			if p := peek(patches, pi); p != nil && p.RecordID == rec.ID && p.Fault != "" {
-				pi++
+			if p := nextFailedPatchFor(rec, z); p != nil {
 				h.violate("error:reported-as-not-found", "target %d %v: the PATCH of record %s failed (injected API failure) but the result is not-found", j, t, rec.ID)
 				continue
 			}
@@ -936,12 +952,7 @@ func (h *history) judge(model, after []cfapi.Zone, targets []publish.Target, res
 					h.violate("error:unexpected", "target %d %v: error %v although no API failure was injected for this record", j, t, res.Error)
 					continue
 				}
-				if q := peek(patches, pi); q != nil {
-					pi++
-					h.violate("patch:wrong-record", "target %d %v (record %s): the write went to %s %s (record %s)", j, t, rec.ID, q.Method, q.Path, q.RecordID)
-				} else {
-					h.violate("updated:no-write", "target %d %v: updated reported but no PATCH was sent", j, t)
-				}
+				h.violate("updated:no-write", "target %d %v: updated reported but no PATCH for record %s was sent", j, t, rec.ID)
 				continue
 			}
 			if current {
@@ -1004,8 +1015,22 @@ func (h *history) judge(model, after []cfapi.Zone, targets []publish.Target, res
 			updatedInCall[rec.ID] = true
 		}
 	}
-	for ; pi < len(patches); pi++ {
-		p := patches[pi]
+	targetRecords := map[string]bool{}
+	for _, t := range targets {
+		if z := findZone(model, t.Zone); z != nil {
+			if rec, _ := findHTTPS(z, t.Name); rec != nil {
+				targetRecords[rec.ID] = true
+			}
+		}
+	}
+	for i, p := range patches {
+		if used[i] {
+			continue
+		}
+		if !targetRecords[p.RecordID] {
+			h.violate("patch:wrong-record", "a write went to %s %s (record %s), which no target of this call names", p.Method, p.Path, p.RecordID)
+			continue
+		}
 		h.violate("patch:unexpected", "a write that belongs to no reported update: %s %s body %s", p.Method, p.Path, p.Body)
 	}
 	// byte-identical store diff: nothing but the validated writes changed
